@@ -172,8 +172,11 @@ func (check) Run(seed int64, tier string, idx int, verbose bool) harness.Result 
 		f := flatten(r, t, 0)
 		desc = fmt.Sprintf("NewFrom(%s) [flattening of %s]", f, t)
 		needSchedules = maxKeys(f) >= 2
+		fpols := [][]ucfg.Option{nil, nil, {ucfg.ReplaceValues}, {ucfg.ReplaceArrValues}, {ucfg.AppendValues}, {ucfg.PrependValues}}
+		fpol := fpols[r.Intn(len(fpols))]
+		desc += fmt.Sprintf(" with %d policy option(s) #%d", len(fpol), r.Intn(1000))
 		runs = map[string]runner{"NewFrom+Unpack": func(pr *rand.Rand) string {
-			c, err := ucfg.NewFrom(permGo(pr, f), ucfg.PathSep("."))
+			c, err := ucfg.NewFrom(permGo(pr, f), append([]ucfg.Option{ucfg.PathSep(".")}, fpol...)...)
 			if err != nil {
 				return errClass(err)
 			}
@@ -188,7 +191,15 @@ func (check) Run(seed int64, tier string, idx int, verbose bool) harness.Result 
 		k1, k2 := gen.Keys[r.Intn(3)], gen.Keys[r.Intn(3)]
 		var in *model.Node
 		var shape string
-		switch r.Intn(4) {
+		switch r.Intn(6) {
+		case 4:
+			// not a duplicate: one spelling only says "nothing here" (nil)
+			shape = "dotted-nil-and-nested-value"
+			in = model.Dict().Set(k1+"."+k2, model.Dict().Set("z", model.Nil())).Set(k1, model.Dict().Set(k2, model.Dict().Set("z", model.P(leaf))))
+		case 5:
+			// not a duplicate: two spellings of one namespace with disjoint settings, under a global policy
+			shape = "disjoint-spellings"
+			in = model.Dict().Set(k1+"."+k2, model.P(leaf)).Set(k1, model.Dict().Set(k2+"2", model.P("other")).Set("l", model.List(model.P(uint64(1)))))
 		case 0:
 			shape = "dotted-and-nested"
 			in = model.Dict().Set(k1+"."+k2, model.P(leaf)).Set(k1, model.Dict().Set(k2, model.P("other")))
@@ -207,8 +218,11 @@ func (check) Run(seed int64, tier string, idx int, verbose bool) harness.Result 
 		}
 		kind = "duplicate:" + shape
 		desc = fmt.Sprintf("NewFrom(%s)", in)
+		dpols := [][]ucfg.Option{nil, {ucfg.ReplaceValues}, {ucfg.AppendValues}}
+		dpol := dpols[r.Intn(len(dpols))]
+		desc += fmt.Sprintf(" with %d policy option(s)", len(dpol))
 		runs = map[string]runner{"NewFrom": func(pr *rand.Rand) string {
-			c, err := ucfg.NewFrom(permGo(pr, in), ucfg.PathSep("."))
+			c, err := ucfg.NewFrom(permGo(pr, in), append([]ucfg.Option{ucfg.PathSep(".")}, dpol...)...)
 			if err != nil {
 				return errClass(err)
 			}
